@@ -16,7 +16,7 @@ name answers after the object behind it took part in a `+` is decided by
   further updates of `c` (the theorems of `Props/C14.lean`).
 -/
 namespace Distogram
-open Gen.DistogramObj (AddTarget addTarget updBounds)
+open Gen.DistogramObj (AddTarget addTarget updBounds updBeforeReject)
 
 variable {K : Type} [Add K] [Sub K] [Mul K] [Div K] [LT K] [LE K]
   [DecidableLT K] [DecidableLE K] [OfNat K 0] [OfNat K 1] [OfNat K 2]
@@ -48,6 +48,36 @@ def ObjHeap.new (s : ObjHeap K) (r cap : Nat) : ObjHeap K :=
 /-- `update(r, value, count)`: the object is changed, every name of it sees the change. -/
 def ObjHeap.upd (s : ObjHeap K) (r : Nat) (value count : K) : Option (Except String (ObjHeap K)) :=
   (s.get r).map fun (o, h) => (update h value count).map fun h' => s.put o h'
+
+/-! ## Calls the source refuses
+
+`update(h, value, count)` raises `ValueError` for a count that is not strictly positive
+(`Gen.DistogramFlow.updCountBad`, the test of the source).  Python objects are changed in place, so
+whatever the function did to `h` *before* the `raise` stays on the object the caller still holds.
+`Gen.DistogramObj.updBeforeReject` is that prefix of the function body — the statements on the bounds that
+precede the validation, in source order, regenerated on every run. -/
+
+/-- The object after `update` refused the call. -/
+def rejectedUpdate (h : Hist K) (value : K) : Hist K :=
+  let b := updBeforeReject h.min h.max value
+  { h with min := b.1, max := b.2 }
+
+/-- The object a caller holds after `try: update(h, value, count) except ...: pass`. -/
+def updateCaught (h : Hist K) (value count : K) : Hist K :=
+  match update h value count with
+  | .ok h' => h'
+  | .error _ => if Gen.DistogramFlow.updCountBad count then rejectedUpdate h value else h
+
+/-- A stream of calls, accepted or refused, on one object; the caller carries on after a refusal. -/
+def runCaught (h : Hist K) (ops : List (K × K)) : Hist K :=
+  ops.foldl (fun a p => updateCaught a p.1 p.2) h
+
+/-- `update(r, value, count)` with the exception caught: the heap afterwards and the error, if any. -/
+def ObjHeap.updCaught (s : ObjHeap K) (r : Nat) (value count : K) : Option (ObjHeap K × Option String) :=
+  (s.get r).map fun (o, h) =>
+    match update h value count with
+    | .ok h' => (s.put o h', none)
+    | .error e => (s.put o (updateCaught h value count), some e)
 
 /-- `dst = a + b` with the receiving object `t` of the source (`Gen.DistogramObj.addTarget`):
 `.self` — the left operand is updated and `dst` becomes another name of it; a copy — `dst` names a new
